@@ -981,3 +981,19 @@ Fixpoint sq_run (mask : Z) (ops : list sqop) (r : sqring) : list (option Z) * sq
       let '(gs, r'') := sq_run mask l r' in (g :: gs, r'')
   | SqConsume n :: l => sq_run mask l (sq_consume n r)
   end.
+
+(* ================================================================== *)
+(* Part F: the buffer of uv__fs_readlink                               *)
+(* ================================================================== *)
+(* uv__fs_pathmax_size (fs.c:723-732): pathconf(path, _PC_PATH_MAX), and
+   UV__PATH_MAX (= PATH_MAX) when that fails.
+   uv__fs_readlink (fs.c:734-791): buf = malloc(maxlen); len = readlink(path,
+   buf, maxlen) - the kernel copies min(target length, maxlen) bytes and no
+   NUL; when len == maxlen the buffer grows by one; buf[len] = 0; ptr = buf. *)
+Definition PATH_MAX : Z := 4096.
+Definition pathmax_size (pathconf_answer : Z) : Z :=
+  if pathconf_answer =? -1 then PATH_MAX else pathconf_answer.
+
+(* the string left in req->ptr for a link whose target is [target] *)
+Definition fs_readlink_ptr {A} (pathconf_answer : Z) (target : list A) : list A :=
+  firstn (Z.to_nat (pathmax_size pathconf_answer)) target.
